@@ -645,23 +645,36 @@ def fresh_key(sc, j):
 
 
 # ------------------------------------------------------------------ model side
-def map_res(res):
-    if res == "ok":
-        return "ok"
-    t, msg, where = res["type"], res["msg"], res.get("where", [])
-    if t == "TheoryException" and msg.startswith("Cycle in imports"):
-        return "cycle"
-    if t == "TheoryException" and "limit" in msg and "not found" in msg:
-        return "limit"
-    if t == "Injected" or t == "TheoryException":
-        return "parse"
-    if t == "RecursionError":
-        return "order"
-    if t == "KeyError":
-        if "check_topological_sort" in where or (where and where[-1] == "load_theory_cache") or (where and where[-1] == "load_theory"):
-            return "key"
-        return "order"
-    return "other:" + t
+def coarse(res):
+    """What the property oracles look at: 'ok', or the exception CLASS (no message texts, no function names)."""
+    return "ok" if res == "ok" else "raises:" + res["type"]
+
+
+# exception classes the model's outcome kinds may show up as (correspondence only)
+MODEL_KIND_TYPES = {"cycle": {"TheoryException"}, "limit": {"TheoryException"}, "parse": {"Injected", "TheoryException"},
+                    "extend": {"TheoryException"}, "key": {"KeyError"}, "order": {"KeyError", "RecursionError"}}
+
+
+def compatible(model_kind, res):
+    if model_kind == "ok" or res == "ok":
+        return model_kind == "ok" and res == "ok"
+    return res["type"] in MODEL_KIND_TYPES.get(model_kind, set())
+
+
+# exception class the property demands per reference outcome (None: any exception)
+REF_KIND_TYPE = {"cycle": "TheoryException", "limit": "TheoryException", "key": None, "parse": None, "extend": None}
+
+
+def obs_of_item(ty, name):
+    """What an item contributes that a user can observe by name (auto-generated theorems of definitions and
+    datatypes are not listed: only presence of these names / absence of the names of items not loaded is judged)."""
+    if name is None or ty == "header":
+        return []
+    if ty in ("thm", "thm.ax"):
+        return [("theorems", name)]
+    if ty in ("type.ax", "type.ind"):
+        return [("types", name)]
+    return [("consts", name)]
 
 
 class ModelView:
@@ -812,11 +825,13 @@ def differs(hop, fop):
             if hd[part] != fd[part]:
                 a, b = {json.dumps(x, ensure_ascii=False) for x in hd[part]}, {json.dumps(x, ensure_ascii=False) for x in fd[part]}
                 return "%s differ: only after the history %s; only in a fresh process %s" % (part, sorted(a - b)[:4], sorted(b - a)[:4])
-    hi, fi = hop.get("thy_items"), fop.get("thy_items")
+    hi, fi = hop.get("names"), fop.get("names")
     if hi is None or fi is None:
         return "theory.thy is %s after the history and %s in a fresh process" % ("None" if hi is None else "set", "None" if fi is None else "set")
-    a, b = {tuple(x) for x in hi}, {tuple(x) for x in fi}
-    return "theories differ: items only after the history %s; only in a fresh process %s" % (sorted(a - b)[:4], sorted(b - a)[:4])
+    a = {(part, x) for part in hi for x in hi[part]}
+    b = {(part, x) for part in fi for x in fi[part]}
+    return "theories differ (same names, different statements/types/attributes)" if a == b else \
+        "theories differ: names only after the history %s; only in a fresh process %s" % (sorted(a - b)[:4], sorted(b - a)[:4])
 
 
 def reference(mv, j):
@@ -875,7 +890,12 @@ def reference(mv, j):
                 memo[n] = None
                 return None
             if sc.kind == "synth":
-                visible |= {it["name"] for it, ok in zip(files[p]["content"], c) if ok and it["ty"] == "def.ax"}
+                for it, ok in zip(files[p]["content"], c):
+                    if ok and it["ty"] == "def.ax":
+                        if it["name"] in visible:      # two imports declare the same constant: extending raises
+                            memo[n] = None
+                            return None
+                        visible.add(it["name"])
         res = []
         if sc.kind == "synth":
             for it in files[n]["content"]:
@@ -912,22 +932,38 @@ def reference(mv, j):
 
 
 def judge_spec(ctx, sc, j, op_rec, mv, which):
-    """property oracle (c): outcome and items of theory.thy after load op j against the reference loader"""
+    """property oracle (c): load op j against the reference loader, on what a user can observe --
+    * the load raises an exception iff the library says it must (a TheoryException for a cycle / a missing limit);
+    * otherwise theory.thy contains the names contributed by every item the library says is loaded and none of the
+      names of the items it says are not loaded (items after the limit, items that do not parse, other theories).
+    No instrumentation tag, message text or function name is used here."""
     kind, exp = reference(mv, j)
-    got = map_res(op_rec["res"])
     fin = sc.ops[j]
+    res = op_rec["res"]
     what = None
-    if got != kind:
-        what = "outcome %s (%s), the library says %s" % (got, op_rec["res"], kind)
+    if kind == "ok" and res != "ok":
+        what = "raises %s (%s), the library says it loads" % (res["type"], res["msg"][:100])
+    elif kind != "ok" and res == "ok":
+        what = "returns normally, the library says it must fail (%s)" % kind
+    elif kind != "ok" and REF_KIND_TYPE.get(kind) and res["type"] != REF_KIND_TYPE[kind]:
+        what = "raises %s, the library says %s must be reported as a %s" % (res["type"], kind, REF_KIND_TYPE[kind])
     elif kind == "ok":
-        items = op_rec.get("thy_items") or []
-        own = [x for x in items if x[0] == fin["name"]]
-        imp = [x for x in items if x[0] != fin["name"]]
-        if sorted(map(tuple, imp)) != sorted(map(tuple, exp[0])):
-            a, b = {tuple(x) for x in imp}, {tuple(x) for x in exp[0]}
-            what = "items of imported theories differ: extra %s, missing %s" % (sorted(a - b)[:4], sorted(b - a)[:4])
-        elif own != exp[1]:
-            what = "own items loaded %s..., expected %s... (%d / %d items)" % (own[-3:], exp[1][-3:], len(own), len(exp[1]))
+        names = op_rec.get("names")
+        cur = sc.versions_at(j) if sc.kind != "real" else {n: 0 for n in mv.names}
+        loaded = {(n, i) for n, i in exp[0] + exp[1]}
+        want, others = set(), set()
+        scope = mv.names if sc.kind == "synth" else [fin["name"]]       # real theories: only the own items are negated
+        for n in set(scope) | {n for n, _ in loaded}:
+            for i, (ty, nm) in enumerate(mv.files[n][cur[n]]["items"]):
+                (want if (n, i) in loaded else others).update(obs_of_item(ty, nm))
+        others -= want
+        if names is None:
+            what = "theory.thy is None after a load that returned normally"
+        else:
+            have = {(part, nm) for part in ("types", "consts", "theorems") for nm in names[part]}
+            missing, extra = sorted(want - have), sorted(others & have)
+            if missing or extra:
+                what = "theory.thy lacks %s and contains %s (names of items that must / must not be loaded)" % (missing[:5], extra[:5])
     if what is not None:
         if which == "history":
             key = "spec:" + classify_history(sc, j) if not stale_imports_class(sc, j) else STALE_IMPORTS
@@ -978,29 +1014,63 @@ def judge(ctx, sc, j, hop, fop, label):
     return d
 
 
+def instrumented(h):
+    """Did the tracing wrappers of c12_runner.py see the loader's work?  (They hang on internals: module attributes of
+    logic/basic.py and server/items.py; a harmless refactoring may bypass them.)"""
+    loaded = any(op["res"] == "ok" and op.get("names") is not None and "digest" in op for op in h["ops"])
+    ins = h.get("instr")
+    if not loaded or ins is None:
+        return True
+    return ins["json"] > 0 and ins["parse"] > 0 and ins["extend"] > 0 and ins["tagged"] == ins["extend"]
+
+
+def model_names(mv, sc, j, thy):
+    cur = sc.versions_at(j) if sc.kind != "real" else {n: 0 for n in mv.names}
+    out = set()
+    for n, i in thy:
+        ty, nm = mv.files[n][cur[n] if n in cur else 0]["items"][i]
+        out.update(obs_of_item(ty, nm))
+    return out
+
+
 def correspond(ctx, sc, h, model_out, mv, label):
+    """Model correspondence (never a violation by itself).  Outcomes are matched by exception class.  With working
+    instrumentation: files parsed, modules executed, exact item list of theory.thy at every load.  When the wrappers
+    were bypassed: only the outcome and the names the model's theory must contribute (scenarios with injected faults
+    are skipped, the fault cannot be injected)."""
     m = parse_model(model_out, mv) if model_out else None
     if m is None:
         ctx.broken("correspondence:c12:driver", "model driver gave no answer for %s" % label)
         return False
+    full = instrumented(h)
+    if not full:
+        ctx.count("instrumentation-bypassed")
+        ctx.coverage["instrumentation"] = ("tracing wrappers bypassed by the implementation (%s): correspondence reduced to outcomes and "
+                                           "observable names" % h.get("instr"))
+        if any(op.get("fault") for op in sc.ops):
+            return True
     bad = []
     for j, (po, mo) in enumerate(zip(h["ops"], m["ops"])):
-        pr = map_res(po["res"])
-        if pr != mo["res"]:
-            bad.append("op %d %s: impl %s (%s) model %s" % (j, sc.ops[j], pr, po["res"], mo["res"]))
-        if po["reads"] != mo["reads"]:
+        if not compatible(mo["res"], po["res"]):
+            bad.append("op %d %s: impl %s model %s" % (j, sc.ops[j], po["res"], mo["res"]))
+        if full and po["reads"] != mo["reads"]:
             bad.append("op %d %s: files parsed impl %s model %s" % (j, sc.ops[j], po["reads"], mo["reads"]))
         if po["mods"] != mo["mods"]:
             bad.append("op %d %s: modules executed impl %s model %s" % (j, sc.ops[j], po["mods"], mo["mods"]))
         if sc.ops[j]["op"] == "load":
             ht, mt = po.get("thy_items"), mo["thy"]
-            if ht is not None and mt is not None:
+            if full and ht is not None and mt is not None:
                 if ht != mt:
                     k = next((k for k in range(min(len(ht), len(mt))) if ht[k] != mt[k]), min(len(ht), len(mt)))
                     bad.append("op %d %s: theory items differ at position %d: impl %s model %s (lengths %d / %d)" % (
                         j, sc.ops[j], k, ht[k:k + 3], mt[k:k + 3], len(ht), len(mt)))
-            elif (ht is None) != (mt is None):
-                bad.append("op %d: theory impl %s model %s" % (j, "None" if ht is None else "set", "None" if mt is None else "set"))
+            elif not full and po.get("names") is not None and mt is not None and po["res"] == "ok":
+                have = {(part, nm) for part in po["names"] for nm in po["names"][part]}
+                lack = sorted(model_names(mv, sc, j, mt) - have)
+                if lack:
+                    bad.append("op %d %s: theory lacks names the model's theory contributes: %s" % (j, sc.ops[j], lack[:5]))
+            elif (po.get("names") is None) != (mt is None):
+                bad.append("op %d: theory impl %s model %s" % (j, "None" if po.get("names") is None else "set", "None" if mt is None else "set"))
     if bad:
         ctx.broken("correspondence:c12:%s" % label, "; ".join(bad[:3]) + " | history " + json.dumps(sc.ops, ensure_ascii=False)[:300])
         ctx.coverage["disagreements_checked"] += 1
@@ -1060,7 +1130,7 @@ def run_scenarios(ctx, scs, src, label):
             if "error" in f:
                 ctx.broken("runner:c12:" + lab, "fresh run for step %d: %s" % (j, f.get("error")))
                 continue
-            ctx.count("judged-load:" + map_res(h["ops"][j]["res"]))
+            ctx.count("judged-load:" + coarse(h["ops"][j]["res"]))
             if judge(ctx, sc, j, h["ops"][j], f["ops"][0], lab):
                 nviol += 1
             if judge_spec(ctx, sc, j, f["ops"][0], views[idx], "fresh") or judge_spec(ctx, sc, j, h["ops"][j], views[idx], "history"):
